@@ -1594,9 +1594,11 @@ func (e *CoreExtension) filterSlice(value interface{}, args ...interface{}) (int
 		// Calculate end index
 		end := runeCount
 		if hasLength && length >= 0 {
-			end = start + length
-			if end > runeCount {
+			// (start + length may not be representable: compare first)
+			if length > runeCount-start {
 				end = runeCount
+			} else {
+				end = start + length
 			}
 		} else if hasLength {
 			// Negative length means count from the end
@@ -1626,9 +1628,11 @@ func (e *CoreExtension) filterSlice(value interface{}, args ...interface{}) (int
 		// Calculate end index
 		end := count
 		if hasLength && length >= 0 {
-			end = start + length
-			if end > count {
+			// (start + length may not be representable: compare first)
+			if length > count-start {
 				end = count
+			} else {
+				end = start + length
 			}
 		} else if hasLength {
 			// Negative length means count from the end
@@ -1665,9 +1669,11 @@ func (e *CoreExtension) filterSlice(value interface{}, args ...interface{}) (int
 		// Calculate end index
 		end := runeCount
 		if hasLength && length >= 0 {
-			end = start + length
-			if end > runeCount {
+			// (start + length may not be representable: compare first)
+			if length > runeCount-start {
 				end = runeCount
+			} else {
+				end = start + length
 			}
 		} else if hasLength {
 			// Negative length means count from the end
@@ -1697,9 +1703,11 @@ func (e *CoreExtension) filterSlice(value interface{}, args ...interface{}) (int
 		// Calculate end index
 		end := count
 		if hasLength && length >= 0 {
-			end = start + length
-			if end > count {
+			// (start + length may not be representable: compare first)
+			if length > count-start {
 				end = count
+			} else {
+				end = start + length
 			}
 		} else if hasLength {
 			// Negative length means count from the end
